@@ -338,7 +338,17 @@ func GenReq(r *core.Rand, t *Table, router string) Req {
 		return req
 	}
 	si := r.Intn(len(t.Svcs))
+	for try := 0; try < 8 && len(t.Svcs[si].Routes) == 0; try++ {
+		si = r.Intn(len(t.Svcs))
+	}
 	s := &t.Svcs[si]
+	if len(s.Routes) == 0 {
+		// a WebService without routes: probe its root
+		req.Class = "hit"
+		req.Method = r.Pick(Methods)
+		req.Path = "/" + strings.Join(instantiate(r, s.Root), "/")
+		return req
+	}
 	rt := &s.Routes[r.Intn(len(s.Routes))]
 	full := Full(s, rt)
 	toks := instantiate(r, full)
